@@ -569,7 +569,10 @@ def step (c : Case5) (kind : String) (toks : List String) : Case5 × String :=
   match kind with
   | "ent" =>
     match nat? toks "k" with
-    | some k => if k = c.ents.length then ({ c with ents := c.ents ++ [[]] }, "ok") else (c, "bad-op")
+    | some k =>
+      if k = c.ents.length && ["none", "empty", "nofts"].contains ((kv? toks "opt").getD "none") then
+        ({ c with ents := c.ents ++ [[]] }, "ok")
+      else (c, "bad-op")
     | none => (c, "bad-op")
   | "fld" =>
     match nat? toks "e", nat? toks "k", kv? toks "ty", kv? toks "mod" with
@@ -804,7 +807,8 @@ def stepLine (s : St) (line : String) : St × String :=
       let nul := ((kv? rest "nul").getD "").splitOn ","
       (match tys with
        | some tys =>
-         if tys.isEmpty || tys.length ≠ nul.length then ({}, "bad-op")
+         if tys.isEmpty || tys.length ≠ nul.length ||
+            !(["none", "empty", "nofts"].contains ((kv? rest "opt").getD "none")) then ({}, "bad-op")
          else ({ c04u := some { tys, nul := nul.map (· = "1") } }, s!"case {i}")
        | none => ({}, "bad-op"))
     | some i, some "c05" => ({ c05 := some { ns := (kv? rest "ns") = some "1" } }, s!"case {i}")
